@@ -21,7 +21,7 @@
    and the v1 resolver's refinement r7. *)
 From Coq Require Import Permutation Sorted.
 From Verif Require Import Lib.Bytes StateRes.Event StateRes.Kahn StateRes.V2 StateRes.V1 StateRes.Entry
-     StateRes.SortProofs StateRes.KahnProofs StateRes.OrderProofs StateRes.ResultProofs StateRes.CmpProofs StateRes.KahnOrderProofs StateRes.V2Spec StateRes.OrderSetProofs StateRes.SplitProofs StateRes.ChainProofs StateRes.ChainCompleteProofs StateRes.AuthDiffProofs StateRes.V1Proofs StateRes.V1Spec StateRes.V1SpecProofs StateRes.SubgraphProofs.
+     StateRes.SortProofs StateRes.KahnProofs StateRes.OrderProofs StateRes.ResultProofs StateRes.CmpProofs StateRes.KahnOrderProofs StateRes.V2Spec StateRes.OrderSetProofs StateRes.SplitProofs StateRes.ChainProofs StateRes.ChainCompleteProofs StateRes.AuthDiffProofs StateRes.V1Proofs StateRes.V1Spec StateRes.V1SpecProofs StateRes.SubgraphProofs StateRes.PowerSetProofs.
 
 Section C10.
   Variable allowed : event -> list event -> bool.
@@ -162,6 +162,16 @@ Theorem conflicted_subgraph_is_spec authmap conflicted sets (rank : bytes -> nat
   (In x (complete_subgraph authmap conflicted sets) <-> spec_conflicted_subgraph authmap conflicted sets x).
 Proof. apply conflicted_subgraph_spec. Qed.
 
+
+(* 6.2 r5: the power set. As a SET, the list fullControlSet produces (one visited set shared by
+   all roots, repeats included) is exactly: the conflicted control events of the full conflicted
+   set together with everything they reach through auth events that are themselves events of
+   the conflicted map. Acyclic auth relation on the conflicted map. *)
+Theorem power_set_is_spec cm unconflicted full (rank : bytes -> nat) x :
+  (forall a b, auth_step cm a b -> (rank (e_id b) < rank (e_id a))%nat) ->
+  (In x (control_events cm unconflicted full) <-> spec_power_set cm unconflicted full x).
+Proof. intro H. apply (power_set_spec cm rank H). Qed.
+
 (* v1 (DESIGN.md 6.2 r7): the model of ResolveStateConflicts returns exactly the list the
    per-key specification StateRes/V1Spec.v defines - per conflicted key, in the order create,
    power levels, join rules, third-party invites, members, the candidates oldest first by
@@ -215,6 +225,7 @@ Print Assumptions split_is_spec.
 Print Assumptions full_auth_chain_is_spec.
 Print Assumptions auth_difference_is_spec.
 Print Assumptions conflicted_subgraph_is_spec.
+Print Assumptions power_set_is_spec.
 Print Assumptions v1_resolves_per_spec.
 Print Assumptions v1_returns_conflicted_events.
 Print Assumptions result_is_a_state_map.
